@@ -80,6 +80,9 @@ var c16Vals = []c16Kind{
 	// text that looks like the start of a comment, inside a literal
 	{"Lit(a // b)", func() jen.Code { return jen.Lit("a // b") }, `"a//b"`, false},
 	{"Lit(/*)", func() jen.Code { return jen.Lit("/* x") }, `"/*x"`, false},
+	// values that refer to the packages of the keys, with the same identifier
+	{"Qual(a/f,X)", func() jen.Code { return jen.Qual("a/f", "X") }, "@<a/f>.X", false},
+	{"Qual(b/f,X)", func() jen.Code { return jen.Qual("b/f", "X") }, "@<b/f>.X", false},
 }
 
 // c16K enrols the key of a nested Dict with the controller of the execution being built
@@ -345,6 +348,7 @@ func c16Space(tier ev.Tier) []c16Dict {
 	// that contain comment markers inside string literals
 	ds = append(ds, c16Over(3, []int{1, 3, 4, 11}, []int{0, 8, 9, 10})...)
 	ds = append(ds, c16Over(3, []int{0, 3, 12, 13}, []int{0, 2})...)
+	ds = append(ds, c16Over(3, []int{3, 4, 1}, []int{11, 12, 0})...)
 	return ds
 }
 
